@@ -14,3 +14,18 @@ def run(rep, tier):
     rep.trust(*BASE_TRUST)
     rep.assume(*BASE_ASSUME)
     run_pyvc(rep, contracts_for("C07"), native_limit=150 if tier == "quick" else 600)
+    # bounded stand-in: an include written in a template that takes part in an inheritance chain is still a chain of its own
+    import time
+    from vrf.core import Result, VIOLATED, BOUNDED_OK
+    from vrf.bounded import inherit_grid as G
+    from vrf.propkit import link_bounded_witness
+    t0 = time.time()
+    n, bad = G.include_cases()
+    bound = "included chain of length 1 and 2 x colliding / distinct block name, included from an inheriting template"
+    if bad:
+        rep.add(Result("C07.include-independent", VIOLATED, klass="B", backend="native-model", function="mako.runtime:_include_file", bound=bound, evaluations=n,
+                       detail=str(bad[0])[:250], witness=bad[0], replayed=True, replay={"failures": bad}, time_s=time.time() - t0))
+    else:
+        rep.add(Result("C07.include-independent", BOUNDED_OK, klass="B", backend="native-model", function="mako.runtime:_include_file", bound=bound, evaluations=n,
+                       time_s=time.time() - t0, detail="the included template's named blocks render at their position; the includer's parent/next are not visible to it"))
+    link_bounded_witness(rep, only=lambda r: "_include_file" in r.oid)
